@@ -4,7 +4,7 @@ from common import *
 ID = "C27"
 GEN = []
 THEOREMS = ["C27_plain_store_partial", "C27_plain_emit_partial", "C27_plain_quote_unquote_partial", "C27_decode_plain",
-            "C27_refuted_length", "C27_refuted_quote_unquote_newline", "C27_refuted_private_use", "C27_refuted_escaped_space",
+            "C27_refuted_length", "C27_refuted_quote_unquote_newline", "C27_refuted_private_use",
             "C27_refuted_invalid_code_point", "C27_refuted_statement"]
 COQ_HEADER = ("From Coq Require Import String List NArith ZArith.\nFrom RV Require Import Run.C27.\n"
               "Import ListNotations.\nLocal Open Scope list_scope.")
@@ -173,6 +173,6 @@ LEVEL_TEXT = ("proof (partial): the double-quoted literal reader of parser/strin
               "five refuted clauses carry machine-checked witnesses; the model is tied to rsass by code-point-exact comparison "
               "of the printed token, str-length, quote(unquote()) and unquote() on generated literals")
 LEVEL_NOTE = ("the general statement is false in several ways (length counts stored escapes; quote does not re-escape line breaks "
-              "[the base-ten unquote F26b was fixed by cf6ac61]; private-use characters are written as unterminated hex escapes; an escaped space loses the space and can "
-              "leave a dangling backslash; surrogate/out-of-range escapes are read as text): known findings")
+              "[the base-ten unquote F26b was fixed by cf6ac61]; private-use characters are written as unterminated hex escapes [the escaped-space part of F33 was fixed by 6aead77]; "
+              "surrogate/out-of-range escapes are read as text): known findings")
 TECHNIQUE = "Coq proof on the escape-free class + refutation witnesses + differential correspondence with a CSS-token decoder in Coq"
